@@ -55,14 +55,14 @@ Qed.
 (* ------------------------------------------------------------------ the form tests of _translate_attr_value *)
 Lemma is_addrx_codes f : is_addrx (dn_form f) = is_addrx_form f.
 Proof.
-  unfold is_addrx, is_addrx_form.
+  unfold is_addrx, is_addrx_form, gen_translate_addrx_forms. cbn [existsb].
   rewrite (form_is f 0x1b "DW_FORM_addrx" eq_refl), (form_is f 0x29 "DW_FORM_addrx1" eq_refl),
           (form_is f 0x2a "DW_FORM_addrx2" eq_refl), (form_is f 0x2b "DW_FORM_addrx3" eq_refl),
           (form_is f 0x2c "DW_FORM_addrx4" eq_refl). lia.
 Qed.
 Lemma is_strx_codes f : is_strx (dn_form f) = is_strx_form f.
 Proof.
-  unfold is_strx, is_strx_form.
+  unfold is_strx, is_strx_form, gen_translate_strx_forms. cbn [existsb].
   rewrite (form_is f 0x1a "DW_FORM_strx" eq_refl), (form_is f 0x25 "DW_FORM_strx1" eq_refl),
           (form_is f 0x26 "DW_FORM_strx2" eq_refl), (form_is f 0x27 "DW_FORM_strx3" eq_refl),
           (form_is f 0x28 "DW_FORM_strx4" eq_refl). lia.
